@@ -37,7 +37,9 @@ def Mon.obs (inWait : Bool) (m : Mon) : Obs → Option Mon
   | .cancel id true =>
     if m.out = some id ∧ inWait = true ∧ m.paused = false then some { m with out := none } else none
   | .cancel id false =>
-    if m.out = none ∧ m.waiting.head? = some id then some { m with waiting := m.waiting.tail } else none
+    -- a write failure: only the oldest waiting request, only when nothing is outstanding, and never while the
+    -- connection is down (C10: what is enqueued while disconnected is retained, not attempted)
+    if m.out = none ∧ m.paused = false ∧ m.waiting.head? = some id then some { m with waiting := m.waiting.tail } else none
   | .stopped => some { m with out := none, waiting := [] }
   | .panic => none
   | .blocked => none
